@@ -3,6 +3,7 @@ package main
 // PROV: backward may-derive slices on SSA, and access paths for object identity.
 
 import (
+	"fmt"
 	"go/token"
 	"go/types"
 	"strings"
@@ -306,4 +307,107 @@ func trimPath(p string, embedded ...string) string {
 		p = strings.ReplaceAll(p, "."+e+".", ".")
 	}
 	return p
+}
+
+// ctrlSlice: backSlice extended with control dependence at phis: the conditions of the branches
+// that decide which incoming edge of a phi is taken (immediate dominator's terminator and the
+// terminators of the blocks between it and the phi's predecessors, one level).
+func ctrlSlice(v ssa.Value) *slice {
+	s := backSlice(v)
+	changed := true
+	for changed {
+		changed = false
+		for x := range s.vals {
+			phi, ok := x.(*ssa.Phi)
+			if !ok {
+				continue
+			}
+			b := phi.Block()
+			seen := map[*ssa.BasicBlock]bool{}
+			var walk func(p *ssa.BasicBlock, depth int)
+			walk = func(p *ssa.BasicBlock, depth int) {
+				if p == nil || seen[p] || depth > 6 {
+					return
+				}
+				seen[p] = true
+				if len(p.Instrs) > 0 {
+					if ifi, ok := p.Instrs[len(p.Instrs)-1].(*ssa.If); ok {
+						for k := range backSlice(ifi.Cond).vals {
+							if !s.vals[k] {
+								s.vals[k] = true
+								changed = true
+							}
+						}
+					}
+				}
+				if p == b.Idom() {
+					return
+				}
+				for _, q := range p.Preds {
+					if b.Idom() != nil && b.Idom().Dominates(q) {
+						walk(q, depth+1)
+					}
+				}
+			}
+			for _, p := range b.Preds {
+				walk(p, 0)
+			}
+		}
+	}
+	return s
+}
+
+// affine expresses v as sum(coef[leaf]*leaf) + k over integer adds/subs/conversions; leaves are
+// whatever is not an add, sub or conversion. ok=false when a multiplication etc. is involved in a way
+// that cannot be represented.
+type affineExpr struct {
+	coef map[ssa.Value]int64
+	k    int64
+}
+
+func affine(v ssa.Value) (affineExpr, bool) {
+	switch x := v.(type) {
+	case *ssa.Const:
+		if x.Value != nil {
+			if n, exact := constInt(x); exact {
+				return affineExpr{coef: map[ssa.Value]int64{}, k: n}, true
+			}
+		}
+	case *ssa.Convert:
+		return affine(x.X)
+	case *ssa.ChangeType:
+		return affine(x.X)
+	case *ssa.BinOp:
+		if x.Op == token.ADD || x.Op == token.SUB {
+			a, ok1 := affine(x.X)
+			b, ok2 := affine(x.Y)
+			if !ok1 || !ok2 {
+				return affineExpr{}, false
+			}
+			out := affineExpr{coef: map[ssa.Value]int64{}, k: a.k}
+			for l, c := range a.coef {
+				out.coef[l] += c
+			}
+			sign := int64(1)
+			if x.Op == token.SUB {
+				sign = -1
+			}
+			out.k += sign * b.k
+			for l, c := range b.coef {
+				out.coef[l] += sign * c
+			}
+			return out, true
+		}
+	}
+	return affineExpr{coef: map[ssa.Value]int64{v: 1}}, true
+}
+
+func constInt(k *ssa.Const) (int64, bool) {
+	if k.Value == nil {
+		return 0, false
+	}
+	s := k.Value.ExactString()
+	var n int64
+	_, err := fmt.Sscanf(s, "%d", &n)
+	return n, err == nil
 }
